@@ -39,7 +39,14 @@ MANIFEST = {
              "dates_equations is Admissible for every model that is sequentialised with leads only into input cells, equations_dates "
              "under the incomparable condition (counterexamples both ways) that rows written by equations are read only from earlier "
              "equations or own lags; the executable decision admissibleFlags is sound and complete for Admissible; end-to-end theorem "
-             "simulate_all_equations_hold with hypotheses on the model text, span and plan only. The model is tied to the "
+             "simulate_all_equations_hold with hypotheses on the model text, span and plan only; converse: an Admissible dates/equations "
+             "order forces the closed-form condition on LHS rows; _detect_exogenized hits the target for every transform at EVERY shift "
+             "<= -1 (Python indexing of values_before modelled, out-of-range = error); the data array's extent nPre/nPost is computed by the "
+             "model and every read is proved to land inside it; the returned databox target_db | out_db is modelled as a dict union (fresh "
+             "results override, other names carried over, target order kept); the model object is a state machine (reorder / copy / "
+             "simulate) whose invariant 'compiled evaluators = finalize of the current order' is proved, and row numbering is proved "
+             "immaterial (simulation commutes with any injective renumbering), so simulation after any sequence of re-orderings equals the "
+             "name-level simulation in that order. The model is tied to the "
              "code on every run: the transform/level/residual/plan formulas and the statement lists of Explanatory.simulate/exogenize "
              "are regenerated from the Python AST (a changed formula re-checks the proofs), the control flow (schedule orders, "
              "_detect_exogenized incl. when_data and Python indexing, NaN propagation) by differential runs against irispie on random "
@@ -519,10 +526,13 @@ def apply_prep(m, case, counts=None, simulate=None, pre_runs=None):
     effective order[k] = index in the SOURCE of the equation that is now at position k (for `reorder` computed here from the
     documented meaning `new[k] = old[perm[k]]`; for `sequentialize` the order the call returns, checked to be a permutation)."""
     eff = list(range(len(case["eqs"])))
+    perms = case.setdefault("_perms", [])
+    perms.clear()
     for op in case.get("prep", []):
         if op[0] == "reorder":
             m.reorder_equations(list(op[1]))
             eff = [eff[i] for i in op[1]]
+            perms.append(list(op[1]))
         elif op[0] == "sequentialize":
             try:
                 o = [int(i) for i in m.sequentialize()]
@@ -533,6 +543,7 @@ def apply_prep(m, case, counts=None, simulate=None, pre_runs=None):
             if sorted(o) != list(range(len(eff))):
                 raise ValueError("sequentialize() did not return a permutation")
             eff = [eff[i] for i in o]
+            perms.append(o)
         elif op[0] == "copy":
             m = m.copy()
         elif op[0] == "simulate":
@@ -1095,6 +1106,8 @@ def run_cases(ctx: Ctx, cases, with_model=True):
             ctx.evaluations += 1
             ctx.count("prep_simulate_judged")
             oracle(ctx, cases[ci], order0, status0, vals0, out0, eff0)
+    compare_object_orders(ctx, cases, built, effs, with_model)
+    merges = []
     for k, (ci, order) in enumerate(jobs):
         case, eff = cases[ci], effs[ci]
         target = None if isinstance(built[ci], BaseException) else built[ci][6]
@@ -1111,6 +1124,17 @@ def run_cases(ctx: Ctx, cases, with_model=True):
                 got, after = snapshot(out_db, foreign), snapshot(target, foreign)
                 if got != before or after != before:
                     ctx.disagree("target-db", {"case": case, "order": order}, str(got)[:300], str(before)[:300])
+                # for the `merge` stream: the same simulation without target_db gives the fresh results alone
+                if with_model:
+                    try:
+                        mm, dbb, spn, pln, *_ = built[ci]
+                        plain = mm.simulate(dbb, spn, plan=pln, when_simulates_nan="silent",
+                                            execution_order="dates_equations" if order == "de" else "equations_dates")
+                        merges.append((case, order, list(target.keys()), list(plain.keys()), list(out_db.keys()),
+                                       snapshot(target, list(target.keys())), snapshot(plain, list(plain.keys())),
+                                       snapshot(out_db, list(out_db.keys()))))
+                    except Exception:
+                        ctx.count("merge_plain_run_failed")
         for op in case.get("prep", []):
             ctx.count("prep_" + op[0])
         if eff is not None and eff != list(range(len(eff))):
@@ -1152,11 +1176,73 @@ def run_cases(ctx: Ctx, cases, with_model=True):
             elif oclosed == "C" and "F" in oflags:
                 ctx.disagree("closed-form", {"case": case, "order": order}, "condition holds but " + oflags, mflags)
             ctx.count("closed_form_condition_" + ("holds" if oclosed == "C" else "fails") + "_" + order)
+            # E-class stream: the extent of the data array -- the model's nPreOf/nPostOf (from the equations it was given), the
+            # harness's own count of pre/post-sample columns, and irispie's -max_lag / max_lead of the (prepared) model object
+            if len(head) > 4 and order == "de":
+                ctx.streams_compared["presample"] = ctx.streams_compared.get("presample", 0) + 1
+                mobj = built[ci][0]
+                impl_ext = f"P{-int(mobj.max_lag)}/{int(mobj.max_lead)}"
+                mine = f"P{case['npre']}/{case['npost']}"
+                if not (head[4] == impl_ext == mine):
+                    ctx.disagree("presample", {"case": case, "order": order}, impl_ext, head[4] + " harness " + mine)
             if oclosed != "C" and "F" not in oflags:
                 ctx.count("admissible_without_closed_form_condition_" + order)
+        if k == len(jobs) - 1:
+            compare_merges(ctx, merges)
         if k % max(1, len(jobs) // 3) == 0:
             ctx.sample({"source": source_of(case), "prep": case.get("prep", []), "order": order, "plan": case["plan"], "status": status,
                         "output": {n: [None if is_nan(x) else x for x in v] for n, v in (vals or {}).items()}})
+
+
+def compare_object_orders(ctx: Ctx, cases, built, effs, with_model):
+    """E-class stream `object-order`: the order of the equations in the model object after its re-orderings -- the Lean model's
+    `reorderList` fold (the state machine of Props section 13), the harness's own bookkeeping, and the object itself (the LHS names
+    of its equations, when they are distinct)"""
+    if not with_model:
+        return
+    todo = []
+    for ci, case in enumerate(cases):
+        if isinstance(built[ci], BaseException) or not case.get("_perms"):
+            continue
+        todo.append(ci)
+    if not todo:
+        return
+    lines = [f"reorder {len(cases[ci]['eqs'])} | " + " | ".join(" ".join(str(i) for i in p_) for p_ in cases[ci]["_perms"]) for ci in todo]
+    rep = ctx.model("C17", lines)
+    if rep is None:
+        return
+    for ci, reply in zip(todo, rep):
+        case = cases[ci]
+        ctx.streams_compared["object-order"] = ctx.streams_compared.get("object-order", 0) + 1
+        mine = " ".join(str(i) for i in effs[ci])
+        lhs = [e["lhs"] for e in case["eqs"]]
+        impl = mine
+        if len(set(lhs)) == len(lhs):
+            impl = " ".join(str(lhs.index(n)) for n in built[ci][0].lhs_names_in_equations)
+        if not (reply == mine == impl):
+            ctx.disagree("object-order", {"case": case, "order": "de"}, impl, reply + " harness " + mine)
+
+
+def compare_merges(ctx: Ctx, merges):
+    """E-class stream `merge`: the returned databox against the model's `mergeOutput target out` (Python dict union, right wins,
+    left order kept): same names in the same order, and every series is the one of the side the model designates"""
+    if not merges:
+        return
+    lines = ["merge " + " ".join(t) + " | " + " ".join(o) for (_, _, t, o, *_rest) in merges]
+    rep = ctx.model("C17", lines)
+    if rep is None:
+        return
+    for (case, order, tkeys, okeys, rkeys, tsnap, osnap, rsnap), reply in zip(merges, rep):
+        ctx.streams_compared["merge"] = ctx.streams_compared.get("merge", 0) + 1
+        want = [w.split("=") for w in reply.split()]
+        ok = [k for k, _ in want] == rkeys
+        if ok:
+            for k, src in want:
+                if rsnap[k] != (tsnap if src == "t" else osnap)[k]:
+                    ok = False
+                    break
+        if not ok:
+            ctx.disagree("merge", {"case": case, "order": order}, " ".join(rkeys)[:300], reply[:300])
 
 
 def probe_rejections(ctx: Ctx, rng, n):
